@@ -38,12 +38,12 @@ Record storage_out := mkSO {
   so_issues : N
 }.
 
-Fixpoint listN_eqb (a c : list N) : bool :=
-  match a, c with
-  | [], [] => true
-  | x :: a', y :: c' => (x =? y) && listN_eqb a' c'
-  | _, _ => false
-  end.
+(** equality as multisets: the order of the lines inside a block is presentation
+    (the library fills the results while it walks directories) *)
+Definition countN (x : N) (l : list N) : nat := List.length (filter (N.eqb x) l).
+Definition listN_eqb (a c : list N) : bool :=
+  Nat.eqb (List.length a) (List.length c)
+  && forallb (fun x => Nat.eqb (countN x a) (countN x c)) a.
 
 Definition block_eqb (a c : option (list N * list N)) : bool :=
   match a, c with
